@@ -392,6 +392,9 @@ static void one_action(char *act)
 		long long ns = a2 ? atoll(a2) : 0;
 		i = objnum(a1, 't');
 		if (guard && (!T[i].exists || iv_timer_registered(T[i].o))) return;
+		/* the harness keeps virtual time as nanoseconds in a long long: a relative expiry that would carry it past about 290 years is
+		 * skipped (the library itself has no such limit; repeated decades-ahead re-arming is what gets here) */
+		if (!strcmp(op, "trel") && ns > 0 && vclock > 9000000000000000000LL - ns) return;
 		if (!strcmp(op, "trel")) ns += vclock;
 		if (!iv_timer_registered(T[i].o))
 			ts_of(ns, &T[i].o->expires);
